@@ -746,13 +746,7 @@ Section PoolSerial.
         cbn [pop_ok]. intros Hperm. rewrite Hd, greedy_log_ids, <- map_app.
         unfold pool_ids. apply Permutation_map. apply Permutation_sym. rewrite Hk.
         apply validate_tries_all. exact Hperm.
-      + destruct (validate_refused_cases _ _ _ _ _ _ _ _ _ _ _ _ E) as [[-> _]|(-> & Hne & Hle & ->)];
-          [left; exists e; reflexivity|].
-        right. left. eexists. split; [reflexivity|]. split; [reflexivity|].
-        split; [exact Hne|]. split; [exact Hle|].
-        intros Hperm. unfold pool_ids. cbn [n_pool].
-        destruct (n_pool n) as [l|]; [|apply Permutation_refl]. cbn [elems] in Hperm |- *.
-        apply Permutation_map, Permutation_sym, permute_perm. exact Hperm.
+      + rewrite (validate_refused_id _ _ _ _ _ _ _ _ _ _ _ _ E). left; exists e; reflexivity.
     - reflexivity.
   Qed.
 
